@@ -266,6 +266,10 @@ def run(ctx):
     rule_sole_writer(ctx)
     from rules import c16
     c16.rule_no_mut_view(ctx, rule="C09/append-only-image")
+    # an aborted request leaves the destination equal to the image as of the last flush only if, inside one flush, the slot patch
+    # comes after the append it names (same rule instance as C10/bytes-before-dirent): a failing append must not leave a patched slot
+    from rules import c10
+    c10.rule_bytes_before_dirent(ctx, R="C09/append-before-slot")
 
 
 def thorough(ctx):
